@@ -144,8 +144,12 @@ def main():
     with quiet():
         o = bt.new(prog["top"])
     if explicit:
-        o.set_randstate(RandState.mkFromSeed(sc["seed"]))
-    rs_free = RandState.mkFromSeed(sc["seed"] + 1)
+        # numeric seed, or seed qualified by a string (e.g. an instance path), both documented ways to build a state
+        if sc.get("seed_str"):
+            o.set_randstate(RandState.mkFromSeed(sc["seed"], sc["seed_str"]))
+        else:
+            o.set_randstate(RandState.mkFromSeed(sc["seed"]))
+    rs_free = RandState.mkFromSeed(sc["seed"] + 1, sc.get("seed_str"))
     hist = sc["hist"]
     trace = []
     replay = {"checked": 0, "bad": []}
